@@ -20,7 +20,7 @@ def specs(tier):
                              timeout=400 if tier == "quick" else 1500, env=dict(VB_LS=s, VB_LE=e, VB_LA=a),
                              bounds=dict(seqid="arbitrary character (no tab/line break/blank)", start=s, end=e,
                                          attr_column="entry %d of the fixed list" % a, extra_columns="0-2, first arbitrary")))
-    for a in ((1, 2) if tier == "quick" else (1, 2, 3, 4, 5)):
+    for a in ((2, 3) if tier == "quick" else (1, 2, 3, 4, 5)):
         out.append(XSpec("strict=False[attr#%d]" % a, H, "cond_loose", "reach_loose", timeout=300 if tier == "quick" else 2000,
                          env=dict(VB_LOOSE=1, VB_LA=a), bounds=dict(seqid="arbitrary non-blank character", attr_column="entry %d" % a)))
     return out
